@@ -7,6 +7,11 @@ BlankC == [k |-> "blank"]
 \* 0, 3, 5, 7, -1, 2.5 ; "x" "X" "apple" "apply" "b?" ; blank
 Cells == {NQ(0), NQ(12), NQ(20), NQ(28), NQ(-4), NQ(10), TX(<<120>>), TX(<<88>>), TX(<<97, 112, 112, 108, 101>>), TX(<<97, 112, 112, 108, 121>>),
           TX(<<98, 63>>), BlankC}
+BoolC(b) == [k |-> "bool", b |-> b]
+\* the truth-value enumeration: 1, 0, TRUE, FALSE, blank x criteria TRUE / FALSE (as texts, = and <>) and numbers 1 / 0
+BoolCells == {NQ(4), NQ(0), BoolC(TRUE), BoolC(FALSE), BlankC}
+BoolCrits == {[op |-> o, operand |-> t] : o \in {"EQ", "NE"}, t \in {TX(<<84, 82, 85, 69>>), TX(<<102, 97, 108, 115, 101>>)}}
+             \cup {[op |-> o, operand |-> NQ(4)] : o \in {"EQ", "NE", "GT", "GE", "LT", "LE"}} \cup {[op |-> "EQ", operand |-> NQ(0)]}
 Ops == {"EQ", "NE", "GT", "GE", "LT", "LE"}
 TextOperands == {TX(<<120>>), TX(<<97, 112, 112, 42>>), TX(<<97, 112, 112, 108, 63>>), TX(<<42, 112, 42>>), TX(<<98, 126, 63>>), TX(<<63>>), TX(<<42>>),
                  TX(<<97, 112, 112, 108, 101>>), TX(<<42, 108, 63>>)}
